@@ -421,12 +421,12 @@ Qed.
    the repeater stack [reps]. *)
 From Emmet Require Import proofs.TextSpec proofs.TextProofs proofs.TextNested.
 
-(* numbering_nested_text.  `name{P}*N` for every payload without `$#` and `${n}` fields (those stay tokens: C04_nested_repeated_partial),
+(* numbering_nested_text.  `name{P}*N` for every payload without `${n}` fields (those stay tokens: C04_nested_repeated),
    N written as the digit string [ds], limit not reached: exactly N nodes; the text of copy i (0-based) is the
    literal runs, inner braces kept, with every counter -- whatever its brace depth -- replaced by ... *)
 Theorem C02_numbering_nested_text :
   forall (jsx : bool) (env : cenv) (max_repeat : option N) (name : str) (P : payload) (ds : str),
-    name_ok name -> payload_ok P = true -> no_ph P = true ->
+    name_ok name -> payload_ok P = true ->
     forallb (fun kt => negb (is_field (fst kt))) (snd P) = true -> payload_text P <> [] ->
     all_digits ds -> ds <> [] -> ce_text env = WNone ->
     let n := count_of ds in
@@ -435,7 +435,7 @@ Theorem C02_numbering_nested_text :
       Ok (map (fun i => ANode (Some name) (Some [VStr (payload_out [mkRep n i false] P)])
                               (Some (mkRep n i false)) None [] false)
               (nseq (N.to_nat n) 0%N)).
-Proof. exact numbering_nested_text. Qed.
+Proof. exact numbering_nested_text_full. Qed.
 Print Assumptions C02_numbering_nested_text.
 
 (* ... its value in copy i+1 of N: start + i counting up, start + N - (i+1) counting down, zero-padded to the
@@ -450,7 +450,7 @@ Print Assumptions C02_counter_in_nested_text.
 (* non-vacuity: `p{a{$}b{{$$@-3}c}}*3` -- counters one and two braces deep *)
 Example C02_nested_text_nonvacuous :
   let P : payload := (S "a{", [(INum 1 false false [], S "}b{{"); (INum 2 true true (S "3"), S "}c}")]) in
-  name_ok (S "p") /\ payload_ok P = true /\ no_ph P = true /\ payload_text P = S "a{$}b{{$$@-3}c}" /\
+  name_ok (S "p") /\ payload_ok P = true /\ payload_text P = S "a{$}b{{$$@-3}c}" /\
   map (fun reps => payload_out reps P) [[mkRep 3 0 false]; [mkRep 3 1 false]; [mkRep 3 2 false]] =
     [S "a{1}b{{05}c}"; S "a{2}b{{04}c}"; S "a{3}b{{03}c}"] /\
   option_map (map an_value) (match MarkupResolve.parse_abbr false env0 None (S "p{a{$}b{{$$@-3}c}}*3") with Ok l => Some l | _ => None end) =
